@@ -58,6 +58,7 @@ def run_check(pid, tier, seed):
         incomplete.append('vacuous: only %d distinct non-trivial cases (minimum %d)' % (distinct_nt, min_nt))
 
     n_new, hit, new = report.settle(pid, tier, seed, acc.failures)
+    report.dump_failures(pid, tier, seed, acc.failures)
     samples = list(acc.samples[:6])
     for key, (n, recs) in list(acc.failures.items())[:3]:
         if recs:
